@@ -520,6 +520,13 @@ def exit_status(repo, col):
                         and (call_name(last.value) or "").endswith(
                             ("parser.error", "sys.exit")):
                     ok = True
+                elif isinstance(last, ast.Assign) and \
+                        isinstance(last.targets[0], ast.Name) and \
+                        (const_int(last.value) or 0) != 0 and any(
+                            isinstance(r, ast.Return) and r.value is not None
+                            and last.targets[0].id in names_in(r.value)
+                            for r in stmts_of(fn.node)):
+                    ok = True       # status variable returned later
                 col.add(rule + ".handler", fn, "except %s" % norm(h.type), ok,
                         "" if ok else "handler %s: the command continues and "
                         "can exit with a success status although the "
@@ -861,7 +868,22 @@ def io_pass_through(repo, col):
         for attr in (first, second):
             nodes = []
             for c in calls_in(fn.node):
-                if isinstance(c.func, ast.Attribute) and c.func.attr == attr:
+                hit = isinstance(c.func, ast.Attribute) and c.func.attr == attr
+                # a helper of the same class that itself always passes .attr()
+                if not hit and isinstance(c.func, ast.Attribute) and \
+                        isinstance(c.func.value, ast.Name) and \
+                        c.func.value.id == "self" and fn.cls is not None and \
+                        c.func.attr in fn.cls.methods:
+                    h = fn.cls.methods[c.func.attr]
+                    hcfg = h.cfg()
+                    hown = enclosing_stmt_map(h.node)
+                    hn = [hcfg.node_of(hown.get(id(x))) for x in calls_in(h.node)
+                          if isinstance(x.func, ast.Attribute)
+                          and x.func.attr == attr and hown.get(id(x)) is not None]
+                    hn = [x for x in hn if x is not None]
+                    hit = bool(hn) and hcfg.every_path_passes(hcfg.entry,
+                                                              hcfg.exit, hn)
+                if hit:
                     st = owner.get(id(c))
                     if st is not None and cfg.node_of(st) is not None:
                         nodes.append(cfg.node_of(st))
@@ -875,10 +897,22 @@ def io_pass_through(repo, col):
     fn = repo.func("precomputed_io", "PrecomputedIO.read_chunk")
     defs = local_defs(fn.node)
     rets = [s for s in stmts_of(fn.node) if isinstance(s, ast.Return)]
-    ok = all(r.value is not None and any(
-        "decode(" in norm(d.value) for nname in closure_names(
-            fn.node, names_in(r.value), defs) for d in defs.get(nname, [])
-        if d.value is not None) or "decode(" in norm(r.value) for r in rets)
+    def decoded(r):
+        if r.value is None:
+            return False
+        if "decode(" in norm(r.value):
+            return True
+        if any("decode(" in norm(d.value) for nname in closure_names(
+                fn.node, names_in(r.value), defs) for d in defs.get(nname, [])
+                if d.value is not None):
+            return True
+        v = r.value
+        if isinstance(v, ast.Call) and isinstance(v.func, ast.Attribute) and \
+                isinstance(v.func.value, ast.Name) and v.func.value.id == "self" \
+                and fn.cls is not None and v.func.attr in fn.cls.methods:
+            return "decode(" in norm(fn.cls.methods[v.func.attr].node)
+        return False
+    ok = all(decoded(r) for r in rets)
     col.add(rule, fn, "returns the decoded fetched bytes", ok and bool(rets),
             "" if ok else "read_chunk returns something that is not the "
             "decoder's output")
@@ -988,6 +1022,11 @@ def cast_before_write(repo, col, sites):
             raise AnalysisError("anchor vanished: write_chunk in %s" % fn.key)
         for c in calls:
             a = c.args[0] if c.args else None
+            if isinstance(a, ast.Name):
+                vs = [d.value for d in local_defs(fn.node).get(a.id, [])
+                      if d.value is not None]
+                if len(vs) == 1:
+                    a = vs[0]
             ok = isinstance(a, ast.Call) and isinstance(a.func, ast.Attribute) \
                 and a.func.attr == "astype" and kwarg(a, "casting") is not None \
                 and kwarg(a, "casting").value == "equiv"
